@@ -105,6 +105,9 @@ func genHist(r *rand.Rand, id string, tier string, extremes bool) string {
 	if r.Intn(6) == 0 {
 		c.Ppf = 1 + r.Intn(4)
 	}
+	if r.Intn(4) == 0 {
+		c.Mtx = true // a refused call must release the lock it took (a later call would hang)
+	}
 	if r.Intn(2) == 0 {
 		c.Opt |= fNeg
 	}
@@ -439,7 +442,10 @@ func genCapx(r *rand.Rand, id string, tier string) string {
 				ops = append(ops, "pop")
 			}
 		case 11:
-			if r.Intn(2) == 0 {
+			if r.Intn(3) == 0 {
+				// the capacity getters do not depend on the read-only flag
+				ops = append(ops, fmt.Sprintf("ro %d", r.Intn(2)))
+			} else if r.Intn(2) == 0 {
 				// Marshal-into: one new element if there is room, and the capacity stays what it was
 				ops = append(ops, "marshal "+[]string{"A [ s414e44 i1 i2 ]", "A [ s4c495354 s78 ]", "A [ s434f4e444954494f4e s6b Oc1 i1 ]", "A [ s6a756e6b i5 ]", "A [ ]"}[r.Intn(5)])
 			} else {
@@ -571,11 +577,14 @@ func genXfer(r *rand.Rand, id string, tier string) string {
 		dc.Opt |= fRO
 		dest = genStackLit(r, dc, nd, true)
 	default:
-		if r.Intn(6) == 0 {
+		if r.Intn(4) == 0 {
 			dc.Ppf = 1 + r.Intn(5)
 		}
 		if r.Intn(6) == 0 {
 			dc.Opt |= fNNest
+		}
+		if r.Intn(3) == 0 {
+			dc.Mtx = true // every push into the destination must release the destination's lock
 		}
 		dest = genStackLit(r, dc, nd, true)
 		dest.Form = []string{"n", "n", "a", "as", "p"}[r.Intn(5)]
